@@ -284,3 +284,20 @@ Proof.
     + rewrite Nat.eqb_refl. auto.
     + destruct (Nat.eqb_spec k k'); [congruence|]. f_equal. auto.
 Qed.
+
+Lemma remove_nat_length_in x l : NoDup l -> In x l -> length (remove_nat x l) + 1 = length l.
+Proof.
+  induction 1 as [|y t Hy Hn IH]; cbn; [tauto|].
+  intros [->|Hin].
+  - rewrite Nat.eqb_refl. rewrite remove_nat_notin by auto. lia.
+  - destruct (Nat.eqb_spec x y); [subst; tauto|]. cbn. specialize (IH Hin). lia.
+Qed.
+
+Lemma length_akeys {V : Type} (m : list (nat * V)) : length (akeys m) = length m.
+Proof. unfold akeys. apply map_length. Qed.
+
+Lemma remove_nat_app x l1 l2 : remove_nat x (l1 ++ l2) = remove_nat x l1 ++ remove_nat x l2.
+Proof. induction l1 as [|y t IH]; cbn; auto. destruct (Nat.eqb x y); cbn; congruence. Qed.
+
+Lemma remove_nat_idem x l : remove_nat x (remove_nat x l) = remove_nat x l.
+Proof. apply remove_nat_notin. rewrite remove_nat_In. tauto. Qed.
